@@ -1,45 +1,21 @@
-import TbotVerif.Spec.Chan
+import TbotVerif.Driver.Chan
+import TbotVerif.Driver.Path
+import TbotVerif.Driver.Life
+import TbotVerif.Driver.Ctx
+import TbotVerif.Driver.Tc
+import TbotVerif.Driver.Log
+import TbotVerif.Driver.Ssh
+import TbotVerif.Driver.Shell
+import TbotVerif.Driver.Board
+import TbotVerif.Driver.Quote
 /-! Line-protocol driver: one request per line on stdin, one answer per line on stdout.
-    Anything malformed is answered with `bad-op` — never with a default. -/
-
-def splitAt2 (toks : List String) (sep : String) : List String × List String :=
-  (toks.takeWhile (· != sep), (toks.dropWhile (· != sep)).drop 1)
+    Anything malformed or unknown is answered with `bad-op` — never with a default. -/
 
 def handle (line : String) : String :=
   let toks := (line.splitOn " ").filter (· != "")
   match toks with
   | ["ping"] => "pong"
-  | ["text", h] =>
-    match Bytes.ofHex h with
-    | some b => Wire.chars (text b)
-    | none => "bad-op"
-  | ["decode", h] =>
-    match Bytes.ofHex h with
-    | some b => Wire.chars (decodeReplace b)
-    | none => "bad-op"
-  | ["search", p, h] =>
-    match Pat.ofWire p, Bytes.ofHex h with
-    | some p, some b =>
-      match p.search b with
-      | some (a, e) => s!"{a} {e}"
-      | none => "none"
-    | _, _ => "bad-op"
-  | "chan" :: rest =>
-    match Wire.case rest with
-    | some c => Wire.obs (Chan.run c)
-    | none => "bad-op"
-  | "spec" :: id :: rest =>
-    let (ct, ot) := splitAt2 rest "||"
-    match Wire.case ct, Wire.obsOf ot with
-    | some c, some o =>
-      let f : Option (Case → List OpObs × Bytes → Bool) := match id with
-        | "C02" => some Spec.C02 | "C03" => some Spec.C03 | "C04" => some Spec.C04 | "C06" => some Spec.C06
-        | _ => none
-      match f with
-      | some f => if f c o then "1" else "0"
-      | none => "bad-op"
-    | _, _ => "bad-op"
-  | _ => "bad-op"
+  | _ => (Driver.Chan.handle toks <|> Driver.Path.handle toks <|> Driver.Life.handle toks <|> Driver.Ctx.handle toks <|> Driver.Tc.handle toks <|> Driver.Log.handle toks <|> Driver.Ssh.handle toks <|> Driver.Shell.handle toks <|> Driver.Board.handle toks <|> Driver.Quote.handle toks).getD "bad-op"
 
 partial def loop (hin hout : IO.FS.Stream) : IO Unit := do
   let line ← hin.getLine
